@@ -76,7 +76,7 @@ void harness(void)
 		}
 	}
 	CHECK(done, "C13: the chain ends within raw_len/3 headers (each header is at least 3 bytes)");
-	CHECK((r != 0) == (ok_ref != 0), "C12: the walk succeeds exactly when every size field is 0 or within [size field + 1, rest of header]");
+	CHECK((r != 0) == (ok_ref != 0), "C05/C12: the walk succeeds exactly when every size field is 0 or within [size field + 1, rest of header]");
 	CHECK(ncalls == nref, "C05: exactly the headers of the chain are decoded, once each, in order");
 	if (r && nref == 2 && level == 3) WITNESS("two level-3 extended headers");
 	if (r && nref == 3 && level == 2) WITNESS("three level-2 extended headers");
